@@ -780,11 +780,14 @@ impl Value {
                             ctx.add_variable_from_value(&comprehension.accu_var, accu);
                         }
                     }
-                    t => todo!("Support {t:?}"),
+                    t => return Err(ExecutionError::UnsupportedTargetType { target: t }),
                 }
                 Value::resolve(comprehension.result.deref(), &ctx)
             }
-            Expr::Struct(_) => todo!("Support structs!"),
+            Expr::Struct(s) => Err(ExecutionError::function_error(
+                &s.type_name,
+                "message construction is not supported",
+            )),
             Expr::Unspecified => panic!("Can't evaluate Unspecified Expr"),
         }
     }
